@@ -52,6 +52,10 @@ def fieldset():
             ts2=FM(dimensions=Dimensions.from_abbrev('TS'), description='species scalar 2', units='u'),
             tsp=FM(dimensions=Dimensions.from_abbrev('TSP'), description='species pointwise', units='u'),
             tm=FM(dimensions=Dimensions.from_abbrev('TM'), description='thrust mode', units='u'),
+            # 64-bit integers (Codec.tla DataTypes): scalar, per thrust mode and per point; values beyond 2**53 are not floats
+            t_l=FM(dimensions=T, field_type=np.int64, description='long int', units='u'),
+            tm_l=FM(dimensions=Dimensions.from_abbrev('TM'), field_type=np.int64, description='thrust mode long int', units='u'),
+            tp_l=FM(field_type=np.int64, description='pointwise long int', units='u'),
             tsm=FM(dimensions=Dimensions.from_abbrev('TSM'), description='species x thrust mode', units='u'),
         )
         # the same fields as two field sets, for the layout that keeps ts2 / tsm in an associated file
@@ -68,6 +72,10 @@ def fieldset():
             ts1=FM(dimensions=Dimensions.from_abbrev('TS'), description='species scalar 1', units='u'),
             tsp=FM(dimensions=Dimensions.from_abbrev('TSP'), description='species pointwise', units='u'),
             tm=FM(dimensions=Dimensions.from_abbrev('TM'), description='thrust mode', units='u'),
+            # 64-bit integers (Codec.tla DataTypes): scalar, per thrust mode and per point; values beyond 2**53 are not floats
+            t_l=FM(dimensions=T, field_type=np.int64, description='long int', units='u'),
+            tm_l=FM(dimensions=Dimensions.from_abbrev('TM'), field_type=np.int64, description='thrust mode long int', units='u'),
+            tp_l=FM(field_type=np.int64, description='pointwise long int', units='u'),
         )
         FieldSet(
             'vc_codec_b',
@@ -96,6 +104,9 @@ def supplied(arr, form, small):
     if form == 'cast':
         return arr.astype(small)
     return arr
+
+
+BIG = 2**53 + 1   # the first integer a float64 cannot hold
 
 
 def modes(vals):
@@ -134,6 +145,9 @@ def values_for(case, t, n):
         'ts2': SpeciesValues({Species(sp): val('ts2', t, sp) for sp in sets['ts2']}),
         'tsp': SpeciesValues({Species(sp): supplied(np.arange(n, dtype=float) + val('tsp', t, sp), form, np.float32) for sp in sets['tsp']}),
         'tm': modes((t + 0.1, t + 0.2, t + 0.3, t + 0.4)),
+        't_l': BIG + 10 * t,
+        'tm_l': ThrustModeValues(BIG + 4 * t + 1, BIG + 4 * t + 2, BIG + 4 * t + 3, BIG + 4 * t + 4),
+        'tp_l': np.arange(n, dtype=np.int64) + BIG + t,
         'tsm': SpeciesValues({Species(sp): modes(val('tsm', t, sp) + k / 8 for k in range(4)) for sp in sets['tsm']}),
     }
     return v
@@ -199,6 +213,16 @@ def compare(case, t, got):
         elif k == 'tm':
             if not all(float(g[m]) == float(w[m]) for m in ThrustMode):
                 out.append((k, 'value', f'read {g}; written {w}'))
+        elif k == 'tm_l':
+            if not all(int(g[m]) == int(w[m]) for m in ThrustMode):
+                out.append((k, 'value', f'64-bit integers per thrust mode: read {[int(g[m]) for m in ThrustMode]}; written {[int(w[m]) for m in ThrustMode]}'))
+        elif k == 't_l':
+            if g is None or int(g) != int(w):
+                out.append((k, 'value', f'64-bit integer: read {g!r}; written {w!r}'))
+        elif k == 'tp_l':
+            ga = np.asarray(g)
+            if not (np.issubdtype(ga.dtype, np.integer) and np.array_equal(ga.astype(np.int64), w)):
+                out.append((k, 'value', f'64-bit integers per point: read {ga[:3]}... ({ga.dtype}); written {w[:3]}...'))
         elif k in ('tp_f', 'tp_i'):
             ga = np.asarray(g)
             if not np.array_equal(ga, w):
